@@ -59,6 +59,10 @@ pub enum Leaf {
     /// `c.len` items masked to `width` bits. ity 0..4 = u8, u16, u32, u64, usize source vector.
     WmCore { c: Content, width: usize, ity: u8 },
     Wm { c: Content, width: usize, ity: u8 },
+    /// A user-defined structure (`LazyPart`): `c.len` words that are always loaded, then an optional part of
+    /// `body` words that is written with `Option::serialize` (`present`) or `absent_option`, and that the
+    /// structure's own `load` passes over with `skip_option`.
+    Lazy { c: Content, body: usize, present: bool },
 }
 
 #[derive(Clone, Debug, SerdeSerialize, Deserialize, PartialEq, Eq)]
@@ -139,7 +143,7 @@ pub struct GenCfg {
     pub allow_options: bool,
 }
 
-pub const N_KINDS: u32 = 21;
+pub const N_KINDS: u32 = 22;
 
 impl GenCfg {
     pub fn swarm(rng: &mut Rng, family: Family, max_len: usize) -> GenCfg {
@@ -198,6 +202,7 @@ fn gen_leaf(rng: &mut Rng, cfg: &GenCfg) -> Leaf {
                 Leaf::WmCore { c: gen_content(rng, m / 4), width, ity: rng.below(5) as u8 }
             },
             20 => Leaf::OptSel { c: gen_bits(rng, m * 8), some: rng.chance(4, 5) },
+            21 => Leaf::Lazy { c: gen_content(rng, m / 16), body: gen_len(rng, m / 16), present: rng.chance(3, 4) },
             _ => Leaf::Wm { c: gen_content(rng, m / 4), width: if rng.chance(1, 10) { rng.range_usize(12, 14) } else { rng.range_usize(1, 11) }, ity: rng.below(5) as u8 },
         };
     }
@@ -273,7 +278,7 @@ impl Leaf {
         match self {
             Leaf::U64(_) | Leaf::Usize(_) | Leaf::Pair(..) => None,
             Leaf::VecU64(c) | Leaf::VecUsize(c) | Leaf::VecPair(c) | Leaf::Bytes(c) | Leaf::Str(c) | Leaf::Rank(c) | Leaf::Sel(c) | Leaf::SelZ(c) => Some(c),
-            Leaf::OptSel { c, .. } => Some(c),
+            Leaf::OptSel { c, .. } | Leaf::Lazy { c, .. } => Some(c),
             Leaf::Raw { c, .. } | Leaf::Int { c, .. } | Leaf::Bv { c, .. } | Leaf::Sparse { c, .. } | Leaf::Rl { c, .. } | Leaf::WmCore { c, .. } | Leaf::Wm { c, .. } => Some(c),
         }
     }
@@ -283,7 +288,7 @@ impl Leaf {
         match &mut l {
             Leaf::U64(_) | Leaf::Usize(_) | Leaf::Pair(..) => {},
             Leaf::VecU64(c) | Leaf::VecUsize(c) | Leaf::VecPair(c) | Leaf::Bytes(c) | Leaf::Str(c) | Leaf::Rank(c) | Leaf::Sel(c) | Leaf::SelZ(c) => *c = n,
-            Leaf::OptSel { c, .. } => *c = n,
+            Leaf::OptSel { c, .. } | Leaf::Lazy { c, .. } => *c = n,
             Leaf::Raw { c, .. } | Leaf::Int { c, .. } | Leaf::Bv { c, .. } | Leaf::Sparse { c, .. } | Leaf::Rl { c, .. } | Leaf::WmCore { c, .. } | Leaf::Wm { c, .. } => *c = n,
         }
         l
@@ -321,6 +326,10 @@ impl Leaf {
             },
             Leaf::WmCore { c, width, ity } if *width != 1 => out.push(Leaf::WmCore { c: c.clone(), width: 1, ity: *ity }),
             Leaf::Wm { c, width, ity } if *width != 1 => out.push(Leaf::Wm { c: c.clone(), width: 1, ity: *ity }),
+            Leaf::Lazy { c, body, present } => {
+                if *body > 0 { out.push(Leaf::Lazy { c: c.clone(), body: 0, present: *present }); out.push(Leaf::Lazy { c: c.clone(), body: body / 2, present: *present }); }
+                if *present { out.push(Leaf::Lazy { c: c.clone(), body: *body, present: false }); }
+            },
             _ => {},
         }
         out
@@ -351,6 +360,33 @@ impl Payload {
 
 pub trait Probe {
     fn probe(&self, out: &mut Vec<u64>);
+    /// The type's `load` keeps only part of what was serialized (by design): the loaded value is equal to the
+    /// original as far as it goes, but it is smaller.
+    fn partial_load() -> bool where Self: Sized { false }
+}
+
+/// Digest of what the consuming adapters deliver after reads from both ends. Everything built on `fold` /
+/// `try_fold` / `rfold` (count, last, for_each, sum, all, rev().fold ...) must respect both cursors.
+pub fn consume_digest<I, F: Fn() -> I>(mk: F, full: bool) -> Vec<u64>
+where I: DoubleEndedIterator, I::Item: std::hash::Hash {
+    use std::hash::{Hash, Hasher};
+    let h = |x: &I::Item| -> u64 { let mut st = std::collections::hash_map::DefaultHasher::new(); x.hash(&mut st); st.finish() };
+    let mut out = Vec::new();
+    let configs: &[(usize, usize)] = if full { &[(0, 0), (0, 1), (1, 0), (2, 3), (0, 70), (65, 1)] } else { &[(0, 1), (2, 3)] };
+    for (f, k) in configs.iter() {
+        let prep = || { let mut it = mk(); for _ in 0..*f { it.next(); } for _ in 0..*k { it.next_back(); } it };
+        out.push(prep().count() as u64);
+        out.push(prep().last().map(|v| h(&v)).unwrap_or(1));
+        out.push(prep().fold(7u64, |acc, v| acc.wrapping_mul(31).wrapping_add(h(&v))));
+        if full {
+            out.push(prep().rfold(7u64, |acc, v| acc.wrapping_mul(31).wrapping_add(h(&v))));
+            out.push(prep().rev().fold(7u64, |acc, v| acc.wrapping_mul(31).wrapping_add(h(&v))));
+            let mut n = 0u64; let mut y = prep(); let all = y.all(|_| { n += 1; true }); out.push(n + all as u64);
+            let mut acc = 7u64; prep().for_each(|v| acc = acc.wrapping_mul(31).wrapping_add(h(&v))); out.push(acc);
+            out.push(prep().rev().last().map(|v| h(&v)).unwrap_or(1));
+        }
+    }
+    out
 }
 
 fn sample_points(n: usize) -> Vec<usize> {
@@ -593,6 +629,40 @@ impl<T: Probe> Probe for Option<T> {
     fn probe(&self, out: &mut Vec<u64>) {
         match self { Some(v) => { out.push(1); v.probe(out); }, None => out.push(0) }
     }
+    fn partial_load() -> bool { T::partial_load() }
+}
+
+/// A structure of the library's user, written the way the crate documents it: a part that is always loaded
+/// and an optional part. This reader does not want the optional part and passes over it with `skip_option`,
+/// so a loaded value is smaller than the one that was written; what was not loaded takes no part in equality.
+#[derive(Debug)]
+pub struct LazyPart {
+    pub head: Vec<u64>,
+    pub body: Option<Vec<u64>>,
+}
+
+impl PartialEq for LazyPart {
+    fn eq(&self, other: &LazyPart) -> bool { self.head == other.head }
+}
+
+impl Serialize for LazyPart {
+    fn serialize_header<W: io::Write>(&self, writer: &mut W) -> io::Result<()> { Serialize::serialize(&self.head, writer) }
+    fn serialize_body<W: io::Write>(&self, writer: &mut W) -> io::Result<()> {
+        if self.body.is_some() { Serialize::serialize(&self.body, writer) } else { serialize::absent_option(writer) }
+    }
+    fn load<R: io::Read>(reader: &mut R) -> io::Result<Self> {
+        let head = Vec::<u64>::load(reader)?;
+        serialize::skip_option(reader)?;
+        Ok(LazyPart { head, body: None })
+    }
+    fn size_in_elements(&self) -> usize {
+        self.head.size_in_elements() + if self.body.is_some() { self.body.size_in_elements() } else { serialize::absent_option_size() }
+    }
+}
+
+impl Probe for LazyPart {
+    fn probe(&self, out: &mut Vec<u64>) { self.head.probe(out); }
+    fn partial_load() -> bool { true }
 }
 
 //-----------------------------------------------------------------------------
@@ -616,7 +686,7 @@ pub trait MapView: Sized {
 macro_rules! no_view {
     ($($t:ty),*) => { $( impl MapView for $t { type View<'a> = NoView; fn compare<'a>(&self, _: &NoView) -> Result<(), String> { Err("not mappable".into()) } } )* };
 }
-no_view!(u64, usize, (u64, u64), BitVector, RankSupport, SelectSupport<Identity>, SelectSupport<Complement>, SparseVector, RLVector, WMCore, WaveletMatrix);
+no_view!(LazyPart, u64, usize, (u64, u64), BitVector, RankSupport, SelectSupport<Identity>, SelectSupport<Complement>, SparseVector, RLVector, WMCore, WaveletMatrix);
 
 fn cmp_slices<T: PartialEq + Debug>(what: &str, a: &[T], b: &[T]) -> Result<(), String> {
     if a.len() != b.len() { return Err(format!("{}: view has {} items, value has {}", what, a.len(), b.len())); }
@@ -710,6 +780,7 @@ impl MapView for IntVector {
                 if x != y || a.len() != b.len() { return Err(format!("IntVectorMapper::iter(): mixed front/back history diverges at step {}", step)); }
             }
         }
+        if consume_digest(|| view.iter(), self.len() <= 1 << 16) != consume_digest(|| self.iter(), self.len() <= 1 << 16) { return Err("IntVectorMapper::iter(): a consuming adapter (count, last, fold, rfold, all, for_each) after reads from both ends".into()); }
         if view.is_empty() != self.is_empty() || view.is_mutable() { return Err("IntVectorMapper::is_empty / is_mutable".into()); }
         for idx in [self.len(), self.len() + 1, 1usize << 60, usize::MAX / 2, usize::MAX - 1, usize::MAX] {
             if let Ok(want) = crate::core::catch(|| self.get_or(idx, 77)) {
@@ -769,6 +840,7 @@ pub trait DynVal {
     fn short(&self) -> String;
     fn as_any(&self) -> &dyn Any;
     fn view(&self, map: &MemoryMap, offset: usize) -> ViewResult;
+    fn partial_load(&self) -> bool;
 }
 
 pub struct Holder<T: Item>(pub T);
@@ -790,6 +862,7 @@ impl<T: Item> DynVal for Holder<T> {
     fn probe(&self) -> Vec<u64> { let mut out = Vec::new(); self.0.probe(&mut out); out }
     fn short(&self) -> String { let s = format!("{:?}", self.0); if s.len() > 200 { format!("{}…", &s[..s.char_indices().take_while(|(i, _)| *i < 200).last().map(|(i, c)| i + c.len_utf8()).unwrap_or(0)]) } else { s } }
     fn as_any(&self) -> &dyn Any { self }
+    fn partial_load(&self) -> bool { T::partial_load() }
     fn view(&self, map: &MemoryMap, offset: usize) -> ViewResult {
         match <T as MapView>::View::new(map, offset) {
             Ok(v) => match self.0.compare(&v) {
@@ -1042,6 +1115,7 @@ impl Payload {
             Leaf::Rl { c, scale, route } => lazy(p, || build_rl(c, *scale, *route)),
             Leaf::WmCore { c, width, ity } => lazy(p, || build_wm_core(c, *width, *ity)),
             Leaf::Wm { c, width, ity } => lazy(p, || build_wm(c, *width, *ity)),
+            Leaf::Lazy { c, body, present } => lazy(p, || LazyPart { head: c.words(), body: if *present { Some(Content::new(*body, Pat::Random, c.salt ^ 0x77).words()) } else { None } }),
         }
     }
 
